@@ -8,4 +8,6 @@ out = ['name = "Gms"', 'version = "0.1.0"', 'defaultTargets = ["Gms"]', '', '[[l
 for f in sorted(glob.glob(os.path.join(lean, "Drivers", "*.lean"))):
     n = os.path.splitext(os.path.basename(f))[0]
     out += ['[[lean_exe]]', f'name = "drv_{n.lower()}"', f'root = "Drivers.{n}"', '']
-open(os.path.join(lean, "lakefile.toml"), "w").write("\n".join(out))
+tmp = os.path.join(lean, f"lakefile.toml.{os.getpid()}.tmp")
+open(tmp, "w").write("\n".join(out))
+os.replace(tmp, os.path.join(lean, "lakefile.toml"))
